@@ -23,8 +23,8 @@ ASSUMPTIONS = [
     "plain classes with ClassVar annotations are outside the domain (whether a ClassVar is a 'field' of a non-dataclass is not defined by the statement)",
 ]
 PLAN = {"quick": dict(cases=60000), "thorough": dict(cases=2000000)}
-FLOORS = {"quick": {"iteritems_checked": 50000, "itervalues_checked": 50000, "oneshot_checked": 8000, "kinds": 20},
-          "thorough": {"iteritems_checked": 1500000, "itervalues_checked": 1500000, "oneshot_checked": 250000, "kinds": 20}}
+FLOORS = {"quick": {"iteritems_checked": 50000, "itervalues_checked": 50000, "oneshot_checked": 8000, "kinds": 44},
+          "thorough": {"iteritems_checked": 1500000, "itervalues_checked": 1500000, "oneshot_checked": 250000, "kinds": 44}}
 
 
 @dataclasses.dataclass
@@ -154,6 +154,26 @@ class CustomMapping(collections.abc.Mapping):
         return len(self._d)
 
 
+class ViewDict(dict):
+    """A dict subclass whose own protocol (items / values / keys / iteration / subscription) presents the stored data differently
+    (reversed order, values wrapped): the pairs of THIS mapping are what its items() gives, not what the raw storage holds."""
+
+    def __iter__(self):
+        return iter(reversed(list(dict.keys(self))))
+
+    def keys(self):
+        return list(iter(self))
+
+    def __getitem__(self, k):
+        return ("seen", dict.__getitem__(self, k))
+
+    def values(self):
+        return [self[k] for k in self]
+
+    def items(self):
+        return [(k, self[k]) for k in self]
+
+
 class OneShot:
     """A one-shot iterator that knows what it will yield."""
 
@@ -200,6 +220,21 @@ def make(rng):
         kind = rng.choice(["dict", "OrderedDict", "MappingProxyType", "CustomMapping", "defaultdict"])
         mk = {"dict": dict, "OrderedDict": collections.OrderedDict, "MappingProxyType": lambda x: types.MappingProxyType(dict(x)),
               "CustomMapping": lambda x: CustomMapping(dict(x)), "defaultdict": lambda x: collections.defaultdict(list, x)}[kind]
+        if kind == "OrderedDict" and len(d) >= 2 and rng.random() < 0.6:
+            # re-ordered after it was filled: the order of the mapping is its own, not that of the raw insertion
+            moves = [(rng.choice(list(d)), rng.random() < 0.5) for _ in range(rng.randrange(1, 3))]
+
+            def reordered():
+                od = collections.OrderedDict(d)
+                for k, last in moves:
+                    od.move_to_end(k, last=last)
+                return od
+
+            ref = reordered()
+            return "OrderedDict-reordered", reordered, list(ref.items()), list(ref.values())
+        if kind == "dict" and rng.random() < 0.3:
+            ref = ViewDict(d)
+            return "ViewDict", (lambda: ViewDict(d)), list(ref.items()), list(ref.values())
         return kind, (lambda: mk(d)), list(d.items()), list(d.values())
     if r < 0.40:
         which = rng.choice(["DC", "DCPrivate", "DCSlots", "NT", "NT", "NT1", "NT3", "UNT2", "UNT2", "UNT1", "UNT3", "Plain", "PlainChild", "PlainChildRedeclares", "DCChild", "SlotsOnly", "SlotsArgs", "SlotsArgsChild", "VarsOnly"])
